@@ -129,6 +129,11 @@ def run(ctx):
             i1, c1 = camp.sizeof(prog, con, kw)
             i2, c2 = camp.sizeof(oprog, comp, kw)
             camp.sh.session(CLAUSE, [i1, i2])
+            if "k" in kw:       # ... and again under other keywords, on the same compiled instance
+                for k2 in ({**kw, "k": kw["k"] + 1}, {**kw, "k": 0}):
+                    i1, c1 = camp.sizeof(prog, con, k2)
+                    i2, c2 = camp.sizeof(oprog, comp, k2)
+                    camp.sh.session(CLAUSE, [i1, i2])
             camp.sh.maybe_flush()
             if i < 2:
                 ctx.sample({"program": prog})
